@@ -187,7 +187,12 @@ func clientOffers(i *IPC, w http.ResponseWriter, r *http.Request) {
 			w.WriteHeader(http.StatusGatewayTimeout)
 			return
 		default:
-			panic("unknown error")
+			// Any other error means the request could not be processed
+			// (for example an invalid Snowflake-NAT-Type header). The
+			// versioned protocol reports it in the response body; the
+			// legacy one only has the status code.
+			w.WriteHeader(http.StatusBadRequest)
+			return
 		}
 	}
 
